@@ -217,6 +217,21 @@ def run(F, R, tier):
         ok = len(tests) == 1 and effects_ and B.path([entry], effects_, cut_edges=[tests[0][1]]) is None
         R.check(ok, "C17.R2", "C17.R2:main:Restore:needs-backup", q.where(B, tests[0][0]) if tests else "-",
                 "Restore: every effect is reachable only through check_backup_exists() == true")
+        # helper contract: "a backup exists" means the backed-up agent executable exists
+        cbe = R.anchor(ST + "check_backup_exists", "C17.R2")
+        if cbe:
+            Bc = mir.Body(cbe, F)
+            ex = q.bool_call_edges(Bc, ["Path::exists", "exists"])
+            okc, det = len(ex) == 1, "exists() tests: %d" % len(ex)
+            if okc:
+                sb_, tr_, fa_, cb_, args_ = ex[0]
+                tgt = S.sym(Bc, args_[0], {})
+                trues = [bi for bi, blk in enumerate(Bc.blocks) for s in blk["stmts"]
+                         if s["k"] == "assign" and s["lhs"]["l"] == 0 and s["rv"]["k"] == "use" and s["rv"]["o"]["k"] == "const" and s["rv"]["o"].get("val") in (1, True)]
+                okc = tgt == {BK + "/Package/azure-proxy-agent"} and bool(trues) and Bc.path([0], trues, cut_edges=[tr_]) is None
+                det = "tests %s; true only if it exists: %s" % (sorted(tgt), bool(trues) and Bc.path([0], trues, cut_edges=[tr_]) is None)
+            R.check(okc, "C17.R2", "C17.R2:check_backup_exists:contract", "%s:%s" % (cbe["file"], cbe["line"]),
+                    "check_backup_exists() is true only if %s/Package/azure-proxy-agent exists" % BK, "check_backup_exists changed: %s" % det)
     if "Purge" in arms:
         region, entry = own("Purge")
         callees = {q.base_name(c[2] or c[1] or "").rsplit("::", 1)[-1] for c in B.calls if c[0] in region and c[1] != mir.POLL
